@@ -6,6 +6,7 @@
 (* from the operational layer) and "UNDECIDED" (outside the modelled set) are diagnostics only.     *)
 EXTENDS Text, Json, IOUtils
 
+NoCases(g) == {}            \* (the grid constants of module Text are not used here)
 Data == JsonDeserialize(IOEnv.TRACE_FILE)
 Recs == Data.recs
 
